@@ -80,7 +80,10 @@ class LegendCache(object):
         legend.location = os.path.join(self.cache_dir, hash) + '.' + self.file_ext
 
         if os.path.exists(legend.location):
-            legend.source = ImageSource(legend.location)
+            # set the format of the cached file, so that the legend
+            # gets converted when another format was requested
+            legend.source = ImageSource(legend.location,
+                                        image_opts=ImageOptions(format='image/' + self.file_ext))
             return True
         return False
 
